@@ -638,7 +638,8 @@ use crate::{
   structure::duration::Duration,
 };
 
-struct Rng(u64);
+/// .1: strings are drawn from a repertoire with 2-, 3- and 4-octet UTF-8 characters (octet count != character count)
+struct Rng(u64, bool);
 impl Rng {
   fn next(&mut self) -> u64 {
     self.0 ^= self.0 << 13;
@@ -669,6 +670,10 @@ impl Rng {
   fn string(&mut self) -> String {
     // lengths over every residue mod 4, incl. empty
     let n = self.below(14) as usize;
+    if self.1 {
+      const WIDE: [char; 8] = ['a', '\u{fc}', '\u{3a9}', '\u{ff17}', 'z', '\u{20ac}', '\u{1f600}', '\u{df}'];
+      return (0..n).map(|_| WIDE[self.below(8) as usize]).collect();
+    }
     (0..n).map(|_| (b'a' + self.below(26) as u8) as char).collect()
   }
   fn locs(&mut self) -> Vec<Locator> {
@@ -776,7 +781,8 @@ fn default_valued(q: &mut QosPolicies, dfl: &[String], seed: u64) {
 }
 
 fn make(ty: &str, present: Option<&[String]>, dfl: &[String], seed: u64) -> Result<Obj, String> {
-  let mut r = Rng(seed.wrapping_mul(0x2545F4914F6CDD1D) | 1);
+  // "*wide" among the specially valued fields: every string of the object is non-ASCII
+  let mut r = Rng(seed.wrapping_mul(0x2545F4914F6CDD1D) | 1, dfl.iter().any(|x| x == "*wide"));
   let has = |f: &str| -> bool { present.map(|p| p.iter().any(|x| x == f)).unwrap_or(true) };
   let isd = |f: &str| -> bool { dfl.iter().any(|x| x == f) };
   let optv = |f: &str, v: Vec<Locator>| -> Vec<Locator> { if has(f) { v } else { vec![] } };
